@@ -409,7 +409,20 @@ def _est_year(part):
     return int(m.group(1)) * 100 if m else None
 
 
-def est_recurrence_days(text):
+def _real_year(tpp, part):
+    """Year of the point as the time point parser itself reads it (a reduced
+    century form with expanded digits, +006342, is the year 634200), None if
+    it refuses the text."""
+    if tpp is None:
+        return None
+    try:
+        y = tpp.parse(part).year
+        return y if isinstance(y, int) else None
+    except Exception:       # noqa: BLE001
+        return None
+
+
+def est_recurrence_days(text, tpp=None):
     """Rough upper estimate of the days the library may walk for this text
     (constructing the far anchor walks interval x (reps-1) days; producing 3
     points walks 3 intervals)."""
@@ -428,6 +441,9 @@ def est_recurrence_days(text):
         interval = _est_duration_days(b)
     else:
         ya, yb = _est_year(a), _est_year(b)
+        ra, rb = _real_year(tpp, a), _real_year(tpp, b)
+        if ra is not None and rb is not None:
+            ya, yb = ra, rb
         if ya is None or yb is None:
             interval = None
         else:
@@ -462,7 +478,7 @@ def check_fuzz(case):
             tpp = c07.get_parser(cfg)
             limit = 5.0
             if which == "recurrence":
-                est = est_recurrence_days(text)
+                est = est_recurrence_days(text, tpp)
                 if est > 2e7:
                     return Outcome(skip=True, classes=["fuzz/cost_skipped"])
                 limit = 10.0 + 5e-6 * est
